@@ -611,8 +611,11 @@ fn deser_type_generic_at_depth<'frame, 'result, StrT: Into<Cow<'result, str>>>(
                 .map_err(|err| CqlTypeParseError::UdtFieldsCountParseError(err.into()))?
                 .into();
 
+            // The announced count is not trusted for preallocation (a field takes at
+            // least 4 bytes: name length and type id): nested types would otherwise
+            // multiply it by the nesting depth.
             let mut field_types: Vec<(Cow<'result, str>, ColumnType)> =
-                Vec::with_capacity(fields_size);
+                Vec::with_capacity(std::cmp::min(fields_size, buf.len() / 4));
 
             for _ in 0..fields_size {
                 let field_name =
@@ -636,7 +639,8 @@ fn deser_type_generic_at_depth<'frame, 'result, StrT: Into<Cow<'result, str>>>(
             let len: usize = types::read_short(buf)
                 .map_err(|err| CqlTypeParseError::TupleLengthParseError(err.into()))?
                 .into();
-            let mut types = Vec::with_capacity(len);
+            // As above; an element type takes at least 2 bytes.
+            let mut types = Vec::with_capacity(std::cmp::min(len, buf.len() / 2));
             for _ in 0..len {
                 types.push(deser_type_generic_at_depth(
                     buf,
